@@ -97,20 +97,24 @@ pub fn canon_for(name: &str, reply: Option<&[u8]>, tcp: bool) -> String {
         // names of requests whose labels are not well-formed.)
         if m.len() >= 12 {
             let ttl = [0x00u8, 0x00, 0xa8, 0xc0];
-            let mut out = String::from("dns:");
+            let mut out = String::with_capacity(2 * m.len() + 16);
+            out.push_str("dns:");
             let mut k = 0;
+            let mut start = 0;
             while k < m.len() {
-                if k + 6 <= m.len() && m[k..k + 4] == ttl {
+                if m[k] == 0 && k + 6 <= m.len() && m[k..k + 4] == ttl {
                     let rdl = u16::from_be_bytes([m[k + 4], m[k + 5]]) as usize;
                     if (rdl == 4 || rdl == 0) && k + 6 + rdl <= m.len() {
+                        out.push_str(&hex(&m[start..k]));
                         out.push_str("[ttl-rd]");
                         k += 6 + rdl;
+                        start = k;
                         continue;
                     }
                 }
-                out.push_str(&format!("{:02x}", m[k]));
                 k += 1;
             }
+            out.push_str(&hex(&m[start..]));
             return out;
         }
     }
@@ -285,7 +289,15 @@ pub fn run(rep: &mut Report, thorough: bool) {
         let labels: Vec<u32> = crate::deviate::EDGE16.iter().cloned().chain([0x10000u32, 0xfffff]).collect();
         let v4flags: [u16; 4] = [0x0000, 0x4000, 0x8000, 0xc000];
         let tags: [(u16, u16); 4] = [(0x8100, 0x0000), (0x8100, 0x0064), (0x8100, 0xe001), (0x88a8, 0x0064)];
-        let nf = 256 + 256 + labels.len() as u64 + v4flags.len() as u64 + tags.len() as u64;
+        // classes of SOURCE address that exist in both versions
+        let srcs: [(Ip, Ip); 5] = [
+            (Ip::V4([224, 0, 0, 251]), Ip::parse("ff02::fb")),
+            (Ip::V4([127, 0, 0, 1]), Ip::parse("::1")),
+            (Ip::V4([0, 0, 0, 0]), Ip::parse("::")),
+            (Ip::V4([169, 254, 1, 1]), Ip::parse("fe80::1")),
+            (Ip::V4([10, 0, 0, 1]), Ip::parse("2001:db8::1")),
+        ];
+        let nf = 256 + 256 + labels.len() as u64 + v4flags.len() as u64 + tags.len() as u64 + srcs.len() as u64;
         let total = bases.len() as u64 * nf;
         let f4 = flow4(40000, 80);
         let f6 = flow6(40000, 80);
@@ -303,6 +315,13 @@ pub fn run(rep: &mut Report, thorough: bool) {
                 a[22] = (k - 256) as u8;
                 b[21] = (k - 256) as u8;
                 what = format!("TTL / hop limit {}", k - 256);
+            } else if k >= 512 + labels.len() as u64 + v4flags.len() as u64 + tags.len() as u64 {
+                let (s4, s6) = srcs[(k - 512 - labels.len() as u64 - v4flags.len() as u64 - tags.len() as u64) as usize];
+                let mut g4 = f4.clone();
+                g4.cip = s4;
+                let mut g6 = f6.clone();
+                g6.cip = s6;
+                return (g4.udp(&bases[bi].bytes), g6.udp(&bases[bi].bytes), format!("source address {} / {}", s4, s6));
             } else if k >= 512 + labels.len() as u64 + v4flags.len() as u64 {
                 // the same link-layer tagging on both versions (802.1Q priority tag, VLAN 100, 802.1ad)
                 let (tpid, tci) = tags[(k - 512 - labels.len() as u64 - v4flags.len() as u64) as usize];
@@ -363,7 +382,7 @@ pub fn run(rep: &mut Report, thorough: bool) {
             },
             &mut rep.sink,
         );
-        rep.stage("version-differential-envelope", "5 payloads x {TOS = traffic class: 256 values, TTL = hop limit: 256 values, IPv4 id / IPv6 flow label: 24 values, IPv4 DF / reserved flag bits: 4 values, 802.1Q / 802.1ad tags: 4}, the same marking on both IP versions: same canonical answer", total, t0);
+        rep.stage("version-differential-envelope", "5 payloads x {TOS = traffic class: 256 values, TTL = hop limit: 256 values, IPv4 id / IPv6 flow label: 24 values, IPv4 DF / reserved flag bits: 4 values, 802.1Q / 802.1ad tags: 4, source address classes (multicast, loopback, unspecified, link-local, the responder's own): 5}, the same marking on both IP versions: same canonical answer", total, t0);
     }
     // the IPv4 header's own length: the same payload behind IPv4 options (IHL 6..15: NOP padding, a
     // timestamp option, a router-alert option) as datagram and as first data segment: the answer
